@@ -61,7 +61,25 @@ def grep_forbidden():
     return hits
 
 
-def audit(pid):
+def leanchecker():
+    """thorough tier: re-check every compiled proof module with the toolchain's independent checker (cached per build)"""
+    mods = [m for m in re.findall(r"^import (PrtpyProofs\.\S+)", open(os.path.join(LEAN, "PrtpyProofs.lean")).read(), flags=re.M)]
+    lib = os.path.join(LEAN, ".lake", "build", "lib", "lean", "PrtpyProofs")
+    stamp = sorted((f, os.path.getmtime(os.path.join(lib, f))) for f in os.listdir(lib) if f.endswith(".olean")) if os.path.isdir(lib) else []
+    cache = os.path.join(LEAN, ".lake", "audit", "leanchecker.json")
+    try:
+        c = json.load(open(cache))
+        if c["stamp"] == [list(x) for x in stamp]:
+            return c["ok"], c["log"]
+    except Exception:      # noqa
+        pass
+    rc, o = run(["lake", "env", "leanchecker", *mods], cwd=LEAN)
+    os.makedirs(os.path.dirname(cache), exist_ok=True)
+    json.dump({"stamp": stamp, "ok": rc == 0, "log": o[-2000:]}, open(cache, "w"))
+    return rc == 0, o[-2000:]
+
+
+def audit(pid, tier="quick"):
     """-> dict(obligations, discharged, theorems=[{name,kind,axioms,ok,why}], stated_not_proven, build_ok, log, wall_s)"""
     t0 = time.time()
     reg = registry().get(pid, [])
@@ -75,6 +93,11 @@ def audit(pid):
         res["log"] = o[-4000:]
     hits = grep_forbidden()
     res["forbidden_hits"] = hits
+    if tier == "thorough" and rc == 0:
+        ok_lc, log_lc = leanchecker()
+        res["leanchecker"] = "ok" if ok_lc else "FAILED: " + log_lc[-500:]
+        if not ok_lc:
+            hits = hits + ["leanchecker rejected the compiled proof modules"]
     # axioms
     axioms = {}
     if proved and rc == 0:
